@@ -145,4 +145,51 @@ structure AliasFacts where
   deepCopyIn : CopySite → Bool
   deepCopyOut : CopySite → Bool
 
+/-- C08: an exported method of `controllerstate.StateAdapter` (adapter.go) -/
+inductive AMethod where
+  | get | getUncached | list | listUncached | ctxTeardown
+  | create | update | modify | modifyWithResult | teardown | destroy
+  | addFinalizer | removeFinalizer
+deriving DecidableEq, Repr, Inhabited
+
+/-- C08: the access guard an adapter method evaluates before it delegates:
+    `checkReadAccess(ns, typ, optional.Some(id))` ⇒ `.readId`, `checkReadAccess(ns, typ, optional.None)` ⇒
+    `.readKind`, `!adapter.isOutput(typ)` ⇒ `.output`, `checkFinalizerAccess(ns, typ, id)` ⇒ `.finalizer`,
+    a recognised body without any guard ⇒ `.noGuard`. -/
+inductive AGuard where
+  | readId | readKind | output | finalizer | noGuard | unknown
+deriving DecidableEq, Repr, Inhabited
+
+/-- C08: what a declared input does for a request inside the `for _, dep := range adapter.Inputs` loop of a guard:
+    `return nil` ⇒ `.allow`, `if dep.ID == id { return nil }` ⇒ `.ifEqual`, `continue` / no such request ⇒ `.skip` -/
+inductive IdMatch where
+  | allow | ifEqual | skip | unknown
+deriving DecidableEq, Repr, Inhabited
+
+/-- C08: the `dep.Kind == …` condition of a guard loop: none ⇒ `.all`, a disjunction of
+    `dep.Kind == controller.InputX` ⇒ `.only [numeric values]` -/
+inductive KindSel where
+  | all | only (kinds : List Nat) | unknown
+deriving DecidableEq, Repr, Inhabited
+
+/-- C08: whether a read method consults the runtime cache: `cacheHandled && !disableCache` with
+    `disableCache = false` (or no such flag) ⇒ `.ifHandled`, with `disableCache = true` ⇒ `.never` -/
+inductive CacheUse where
+  | ifHandled | never | unknown
+deriving DecidableEq, Repr, Inhabited
+
+/-- C08: a method of `owned.State` (pkg/state/owned/state.go) an adapter method ends in -/
+inductive OMethod where
+  | get | list | ctxTeardown | create | update | modify | modifyWithResult | teardown | destroy
+  | addFinalizer | removeFinalizer | unknown
+deriving DecidableEq, Repr, Inhabited
+
+/-- C08: the owner an `owned.State` method hands to the underlying state:
+    `WithXOwner(st.owner)` ⇒ `.name`; `owner := st.owner; if opts.WithNoOwner { owner = "" }` ⇒ `.nameOrNone`;
+    `if opOpt.Owner != nil { WithXOwner(*opOpt.Owner) } else { WithXOwner(st.owner) }` ⇒ `.explicitOrName`;
+    plain pass-through without an owner option ⇒ `.noOption` -/
+inductive OwnerOpt where
+  | name | nameOrNone | explicitOrName | noOption | unknown
+deriving DecidableEq, Repr, Inhabited
+
 end Cosi.Gen
